@@ -205,6 +205,12 @@ def run(ctx) -> None:
             t = kwarg(n, "title")
             title = ast.literal_eval(t) if t is not None else None
             a0 = n.args[0] if n.args else None
+            if isinstance(a0, ast.Name):
+                # a list of (class, mode) pairs built beforehand in a local bound once: classes and mode names, nothing a rebuild changes
+                binds = [x for x in ast.walk(cws) if isinstance(x, ast.Assign) and len(x.targets) == 1 and isinstance(x.targets[0], ast.Name) and x.targets[0].id == a0.id]
+                stores_ = sum(1 for x in ast.walk(cws) if isinstance(x, ast.Name) and x.id == a0.id and isinstance(x.ctx, ast.Store))
+                if len(binds) == 1 and stores_ == 1:
+                    a0 = binds[0].value
             if isinstance(a0, (ast.ListComp, ast.GeneratorExp)) and len(a0.generators) == 1 and isinstance(a0.generators[0].iter, (ast.List, ast.Tuple)) \
                     and u(a0.elt) == f"({u(a0.generators[0].target)}, 'validation')":
                 also_names = [u(x) for x in a0.generators[0].iter.elts]
@@ -355,6 +361,20 @@ def r4_config_plumbing(ctx) -> None:
     ops = prog.module("hugr._serialization.ops")
     for mod, want_plus in ((tys, False), (ops, True)):
         v = mod.assigns.get("classes")
+        # (a list completed at module level after it was bound: classes.extend(xs) / classes += xs)
+        if v is not None:
+            seen_bind = False
+            for st in mod.tree.body:
+                if isinstance(st, ast.Assign) and len(st.targets) == 1 and u(st.targets[0]) == "classes":
+                    seen_bind = st.value is v
+                    continue
+                if not seen_bind:
+                    continue
+                if isinstance(st, ast.Expr) and isinstance(st.value, ast.Call) and u(st.value.func) == "classes.extend" and len(st.value.args) == 1 and not st.value.keywords:
+                    v = ast.List(elts=[ast.Starred(value=v, ctx=ast.Load()), ast.Starred(value=st.value.args[0], ctx=ast.Load())], ctx=ast.Load())
+                elif isinstance(st, ast.AugAssign) and u(st.target) == "classes" and isinstance(st.op, ast.Add):
+                    v = ast.List(elts=[ast.Starred(value=v, ctx=ast.Load()), ast.Starred(value=st.value, ctx=ast.Load())], ctx=ast.Load())
+            ast.fix_missing_locations(v)
         try:
             src = u(ctx.canon.module_expr(mod, v)) if v is not None else ""
         except Exception:
